@@ -133,10 +133,58 @@ def check_key_identity(analysis: Analysis, res: RuleResult, rule: str) -> None:
                     key = unparse(t.slice)
                     val = node.value
                     ok = isinstance(val, ast.Call) and val.args and unparse(val.args[0]) == key and unparse(val.func) in ("Sensor", "ChildSensor")
+                    if not ok and isinstance(val, ast.Call) and isinstance(val.func, ast.Name):
+                        # a private helper that only ever returns such a constructor call: its first argument,
+                        # with the helper's parameters replaced by the arguments of this call, must be the key
+                        r = analysis.p.resolve_global(mod, val.func.id)
+                        if r and r[0] == "func" and val.func.id.startswith("_") and not val.keywords:
+                            h = r[1].node
+                            params = [a.arg for a in h.args.args]
+                            rets = [x.value for x in ast.walk(h) if isinstance(x, ast.Return)]
+                            if rets and len(params) == len(val.args) and all(isinstance(x, ast.Call) and unparse(x.func) in ("Sensor", "ChildSensor") and x.args for x in rets):
+                                sub = dict(zip(params, [unparse(a) for a in val.args]))
+
+                                class _Sub(ast.NodeTransformer):
+                                    def visit_Name(self, n):
+                                        return ast.parse(sub[n.id], mode="eval").body if n.id in sub else n
+
+                                ok = all(unparse(_Sub().visit(ast.parse(unparse(x.args[0]), mode="eval").body)) == key for x in rets)
                     n += 1
                     res.add(rule, f"{fn} / {norm_stmt(t)} = ...", ok, where(analysis, mod, node), "inserted object is constructed with the key as its id" if ok else f"inserted value {unparse(val)[:60]} is not an object constructed with the key {key}")
     if n < 2:
         raise AnalysisError(f"{rule}: only {n} map insertion sites found, expected at least 2")
+
+
+def self_helper_bodies(analysis: Analysis, info) -> list:
+    """Function nodes whose statements act on `self` on behalf of method `info`: the method itself, private methods
+    it calls as `self._x()` and private module-level functions it calls with `self` as an argument (`_reset(self)`) -
+    the latter with the receiving parameter renamed to `self`, so `p.attr = v` reads as `self.attr = v`. One level."""
+    bodies = [info.node]
+    if info.cls is None:
+        return bodies
+    import copy as _copy
+
+    selfname = info.node.args.args[0].arg if info.node.args.args else "self"
+    for c in ast.walk(info.node):
+        if not isinstance(c, ast.Call):
+            continue
+        if isinstance(c.func, ast.Attribute) and isinstance(c.func.value, ast.Name) and c.func.value.id == selfname and c.func.attr.startswith("_") and not c.func.attr.startswith("__"):
+            m = analysis.p.find_method(info.cls.qual, c.func.attr)
+            if hasattr(m, "node") and m.node not in bodies:
+                bodies.append(m.node)
+        elif isinstance(c.func, ast.Name) and c.func.id.startswith("_"):
+            pos = [i for i, a in enumerate(c.args) if isinstance(a, ast.Name) and a.id == selfname]
+            r = analysis.p.resolve_global(info.module, c.func.id)
+            if pos and r and r[0] == "func" and not isinstance(r[1].node, ast.Lambda) and len(r[1].node.args.args) > pos[0]:
+                h = _copy.deepcopy(r[1].node)
+                pname = h.args.args[pos[0]].arg
+
+                class _Ren(ast.NodeTransformer):
+                    def visit_Name(self, n):
+                        return ast.copy_location(ast.Name(id="self", ctx=n.ctx), n) if n.id == pname else n
+
+                bodies.append(_Ren().visit(h))
+    return bodies
 
 
 def check_seeds(analysis: Analysis) -> List[str]:
@@ -153,7 +201,7 @@ def check_seeds(analysis: Analysis) -> List[str]:
         for q in [cls.qual] + p.subclasses(cls.qual):
             c = p.classes[q]
             for m in c.methods.values():
-                for node in ast.walk(m.node):
+                for node in (x for b in self_helper_bodies(analysis, m) for x in ast.walk(b)):
                     if isinstance(node, (ast.Assign, ast.AnnAssign)):
                         targets = node.targets if isinstance(node, ast.Assign) else [node.target]
                         for t in targets:
